@@ -428,6 +428,11 @@ def callees : List (Label × String) := [
 successful run with a bloom filter, a compressor, one record, no size-triggered WAL rotation -/
 def commonDec : List (String × String × List Bool) := [
   ("SSTableStreamWriter.Open", "writer.opts.enableBloomFilter", [true]),
+  -- 3b4867f: the deferred cleanup of `Open` returns at once when `Open` succeeded; `Close` of a writer whose `Open`
+  -- succeeded finds both record writers
+  ("SSTableStreamWriter.Open", "err == nil", [true]),
+  ("SSTableStreamWriter.Close", "writer.indexWriter != nil", [true]),
+  ("SSTableStreamWriter.Close", "writer.dataWriter != nil", [true]),
   ("SSTableStreamWriter.WriteNext", "writer.lastKey != nil", [false]),
   ("SSTableStreamWriter.WriteNext", "writer.metaData == nil", [false]),
   ("SSTableStreamWriter.WriteNext", "writer.opts.enableBloomFilter", [true]),
@@ -439,6 +444,8 @@ def commonDec : List (String × String × List Bool) := [
   ("simpledb.executeFlush", "memStoreToFlush.Size() == 0", [false]),
   ("wal.checkSizeAndRotate", "(a.currentWriter.Size() + uint64(nextRecordSize)) > a.walOptions.maxWalFileSize", [false]),
   ("wal.setupNextWriter", "a.nextWriterNumber >= 1000000", [false]),
+  -- a9ebc7d: the new WAL file writer opens (its close-again branch is the error path)
+  ("wal.setupNextWriter", "err != nil", [false]),
   ("FileWriter.WriteSync", "w.alignedBlockWrites", [false]),
   ("FileWriter.Write", "!w.open || w.closed", [false]),
   ("FileWriter.Write", "w.compressor != nil", [true]),
@@ -497,6 +504,8 @@ def cfgCompact : Cfg := {
 an unfinished table 3 (empty metadata file); two WAL files, the first with a record (`withWal`), or nothing at all -/
 def cfgOpen (withWal : Bool) : Cfg := {
   dec := [("DB.Open", "db.open", [false]), ("DB.Open", "db.enableCompactions", [false]),
+          -- edfc7e7: the deferred give-back of the loaded tables runs only when `Open` fails
+          ("DB.Open", "err != nil", [false]),
           ("DB.repairCompactions", "info.IsDir() && strings.HasPrefix(info.Name(), SSTableCompactionPathPrefix)", [true]),
           ("DB.repairCompactions", "sstablePath != meta.ReplacementPath", [false, true]),
           ("DB.reconstructSSTables", "info.IsDir() && strings.HasPrefix(info.Name(), SSTablePrefix)", [true]),
